@@ -32,7 +32,7 @@ CFG = {
         "of HandleEvent in source order, resp. the msg.String() text",
         "the segmentation cl (uniseg / vaxis.Characters) is a parameter of the clustered models; the theorems hold for every cl meeting "
         "Spec.Editor.Segmentation (clusters concatenate to the text; the first i clusters re-segment to i clusters; appending never lowers the "
-        "count). That uniseg meets the three laws is not proved; the driver's UAX #29 oracle clUax is compared with uniseg's clustering of the "
+        "count). Round 4: the driver's UAX #29 oracle clUax IS proved to meet the laws for every class assignment (Props/C17Seg); that uniseg equals clUax on the code points at hand is the run-time comparison: clUax is compared with uniseg's clustering of the "
         "widget's value on every op, widths of clusters come from vaxis.Characters per op; the driver checks the three laws on every text it meets",
         "kinds tf/ti: Value is modelled as the list of its clusters; that alphabet never merges and every observed value is re-clustered "
         "with uniseg (an unknown cluster would fail the comparison)",
@@ -74,7 +74,7 @@ CFG = {
     "level_note": "Validated by correspondence only: that Key.String()/Key.Matches produce the strings/verdicts the tables list (C09's subject); that "
                   "uniseg is a Segmentation and equals the driver's clUax (compared on every op); which offset Draw settles on when the line does NOT fit (the scroll policy: modelled in draw/scrollLoop, compared cell by cell; theorems say what is "
                   "shown for the offset it settles on and bound it by 0 <= offset <= cursor, not which offset it is). New oracle on the implementation (round 3): in the scrolled case the drawn row is the prompt followed by a window of the ideal text for some offset 0..cursor, truncators at the cut ends. Modelled, not "
-                  "verified: nothing in the editing functions; since round 4 every statement of the editing functions (guards included) is in the translated bodies the theorems speak about; textinput.Draw, widthToCursor, isAlphaNumeric are still hand models tied by the round-2 text pins (printed with canonical variable names since round 4) and the correspondence run; the cells TextField.Draw writes are not modelled. Not modelled: "
+                  "verified: nothing in the editing functions; since round 4 every statement of the editing functions (guards included) is in the translated bodies the theorems speak about; textinput.Draw and widthToCursor are still hand models tied by the round-2 text pins (printed with canonical variable names since round 4) and the correspondence run; the cells TextField.Draw writes are not modelled. Not modelled: "
                   "direct assignment to the public field TextField.Value, HideCursor, a tab typed into textinput (vaxis.Characters turns it into 8 "
                   "blanks before the editor sees it).",
     "timeout": 1500,
